@@ -47,6 +47,8 @@ def classify_hfail(line):
         return "copy-keeps-source-type"
     # an element hangs below a parent that lists its name with another DATATYPE (moved / copied there, the stored type is kept):
     # the loader reads everything below it with the other type.  Order failures are not excused (the order oracle reads the stored type).
+    if kind == "warning:RequiredSubelementMissing" and "short-name-not-first" in causes:
+        return "insert-before-short-name"
     if "stored-type-mismatch" in causes and (kind.startswith("warning:") or kind == "reload-content-differs"):
         return "move-keeps-source-type"
     return None
@@ -347,7 +349,7 @@ def classify_xver(line):
         return "copy-keeps-source-type"
     # create_copied_sub_element_at accepts a position in front of the SHORT-NAME of an identifiable element with MIXED content
     # (visible since parser fix 44e5d22: only a SHORT-NAME that is the first sub element names its parent)
-    if f.get("kind") == "copy_at" and not causes and probs == ["reload-warning:RequiredSubelementMissing"]:
+    if f.get("kind") == "copy_at" and causes == ["cause:short-name-not-first"] and probs == ["reload-warning:RequiredSubelementMissing"]:
         return "insert-before-short-name"
     return None
 
@@ -515,6 +517,10 @@ def run(tier, seed):
                      "RequiredAttributeMissing are its failures) and the exact-type clause of WorldOK after move/copy (finding move-keeps-source-type; under attach_ok only the "
                      "datatype is kept, for which C07_move/copy_typed_loader_accepts give the structural acceptance LoaderWalk, not equality of the re-loaded tree); "
                      "on the implementation the clause is checked by oracle, recorded exceptions are the known findings printed",
+                     "history theorem C07_order_histories: every create_file of the history uses ONE version v <= LATEST (decidable single_version); covers failing calls as well; "
+                     "AllOrd is about the STORED types. C07_api_built_reloads: the value-level and typing conditions are CHECKED (world_checkb, sound), not derived from the history: "
+                     "the editing calls do not maintain them (findings string-blank-or-empty, root-namespace-editable, move/copy-keeps-source-type, adjacent-text-items-merge, "
+                     "insert-before-short-name, never-set required attributes); the checker asks for every required attribute, so the conclusion is `no warning at all`",
                      "attach theorems: PairOK T is C17's table fact ([F] for the current tables: Tree/CompatReal.v PairOK_real, not re-proved in C07's closure), TypedU is C17's history invariant; "
                      "move: source parent <> destination (same parent is a reposition: C07_order_inv_move part 1)"],
         extra={"theorem_kinds": {"C07_SpecWF_real": "F", "C07_range_exact": "U", "C07_range_complete": "U", "C07_range_err": "U", "C07_range_bounds": "U",
@@ -528,7 +534,12 @@ def run(tier, seed):
                                  "C07_attach_loader_walk": "U", "C07_move_typed_loader_accepts": "U (hypotheses attach_ok, PairOK, TypedU of C17)",
                                  "C07_copy_typed_loader_accepts": "U (hypotheses attach_ok, PairOK, TypedU of C17; Closed of C13)",
                                  "C07_order_inv_move_all": "U", "C07_proj_is_fproj": "U", "C07_reload_clean_file": "U (hypotheses NoHollow of C10, RootCanon of C01)",
-                                 "C07_projection_canonical": "U", "C07_reload_clean_world": "U (hypotheses on the world only: WorldOK, WorldCanon, RootHeader, NoHollow)"}})
+                                 "C07_projection_canonical": "U", "C07_reload_clean_world": "U (hypotheses on the world only: WorldOK, WorldCanon, RootHeader, NoHollow)",
+                                 "C07_copy_keeps_unnamed_nested_refuted": "F-witness", "C07_insert_before_short_name_refuted": "F-witness",
+                                 "C07_order_histories": "U (side condition single_version v ops, v <= LATEST)", "C07_order_histories_real": "F+U",
+                                 "C07_world_check_sound": "U", "C07_api_built_reloads": "U (hypothesis: the boolean checker world_checkb answers true)",
+                                 "C07_api_built_reloads_example": "F (non-vacuity: checker evaluates to true on a history-built world over the real tables)",
+                                 "C07_ordered_short_first": "U", "C07_named_nonseq_real": "F"}})
 
 
 def replay(path):
